@@ -2063,3 +2063,90 @@ V("C20", "generated_name_carried_over", "fire", "R20.c", (Z, """            if k
 V("C20", "changed_explicit_keyword_suppressed", "fire", "R20.c", (Z, "            if (k in kwargs) and (k in values) and kwargs[k] == values[k]: continue", "            if (k in kwargs) and (k in values): continue"))
 V("C20", "keywords_before_positionals", "fire", "R20.c", (Z, "        arguments = arglist + keywords + (['**%s' % spec.varargs] if spec.varargs else [])", "        arguments = keywords + arglist + (['**%s' % spec.varargs] if spec.varargs else [])"))
 V("C20", "benign_processed_check_as_block", "benign", None, (Z, "            if k in processed: continue\n", "            if k in processed:\n                continue\n"))
+
+# ======================================================================= round i rules
+V("C03", "precedence_truncated_to_int", "fire", "R03.t", (Z, "        if 'precedence' not in values:\n            values['precedence'] = 0", "        values['precedence'] = int(values.get('precedence') or 0)"))
+V("C03", "benign_precedence_default_via_setdefault", "benign", None, (Z, "        if 'precedence' not in values:\n            values['precedence'] = 0", "        values.setdefault('precedence', 0)"))
+V("C03", "class_set_before_copy_installed", "fire", "R03.s", (Z, """                parameter = copy.copy(parameter)
+                parameter.owner = mcs
+                type.__setattr__(mcs,attribute_name,parameter)
+                mcs._clear_params_cache()
+            mcs.__dict__[attribute_name].__set__(None,value)
+""", """                parameter = copy.copy(parameter)
+                parameter.owner = mcs
+                parameter.__set__(None,value)
+                type.__setattr__(mcs,attribute_name,parameter)
+                mcs._clear_params_cache()
+            else:
+                parameter.__set__(None,value)
+"""))
+V("C05", "class_cache_cleared_after_set", "fire", "R05.n", (Z, """                type.__setattr__(mcs,attribute_name,parameter)
+                mcs._clear_params_cache()
+            mcs.__dict__[attribute_name].__set__(None,value)
+""", """                type.__setattr__(mcs,attribute_name,parameter)
+                mcs.__dict__[attribute_name].__set__(None,value)
+                mcs._clear_params_cache()
+            else:
+                mcs.__dict__[attribute_name].__set__(None,value)
+"""))
+V("C06", "constant_group_lists_a_name_twice", "fire", "R06.g", (Z, "        for _, g in group:\n            if g.name not in params:\n                params.append(g.name)\n", "        for _, g in group:\n            params.append(g.name)\n"))
+V("C06", "copy_recreates_watcher_per_parameter", "fire", "R06.s", (Z, """            recreated = {}
+            for p, attrs in param_watchers.items():
+""", """            for p, attrs in param_watchers.items():
+                recreated = {}
+"""))
+V("C07", "unregistered_watcher_dropped", "fire", "R07.u", (Z, """        if self_._BATCH_WATCH:
+            self_._events.append(event)
+            if not any(watcher is w for w in self_._state_watchers):""", """        if self_.self is not None and not any(w is watcher for w in self_.self._param__private.watchers.get(event.name, {}).get(event.what, ())):
+            return
+        if self_._BATCH_WATCH:
+            self_._events.append(event)
+            if not any(watcher is w for w in self_._state_watchers):"""))
+V("C08", "watcher_not_queued_after_first_event_of_parameter", "fire", "R08.u", (Z, """            self_._events.append(event)
+            if not any(watcher is w for w in self_._state_watchers):""", """            repeat = any(q.name == event.name and q.what == event.what for q in self_._events)
+            self_._events.append(event)
+            if not repeat and not any(watcher is w for w in self_._state_watchers):"""))
+V("C09", "attribute_names_memoised_per_type", "fire", "R09.w", (R, "        extras = [d for d in dir(current) if not d.startswith('_')]", "        extras = _ATTRS.setdefault(type(current), [d for d in dir(current) if not d.startswith('_')])"), (R, "# When we only support python >= 3.11 we should exchange 'rx' with Self type annotation below.", "_ATTRS = {}\n# When we only support python >= 3.11 we should exchange 'rx' with Self type annotation below."))
+V("C10", "relink_skipped_when_reference_compares_equal", "fire", "R10.l", (Z, "        obj.param._update_ref(name, ref)\n\n    def _validate_value", "        if name in obj._param__private.refs and obj._param__private.refs[name] == ref:\n            return\n        obj.param._update_ref(name, ref)\n\n    def _validate_value"))
+V("C10", "rx_value_setter_skips_identical_object", "fire", "R10.v", (R, "        self._reactive._wrapper.object = resolve_value(new)", "        new = resolve_value(new)\n        if new is self._reactive._wrapper.object:\n            return\n        self._reactive._wrapper.object = new"))
+V("C11", "allow_none_rewritten_after_merge", "fire", "R11.g", (Z, """        Can be overridden on subclasses to update a Parameter state, i.e. slot
+        values, after the slot values have been set in the inheritance procedure.
+        \"\"\"
+""", """        Can be overridden on subclasses to update a Parameter state, i.e. slot
+        values, after the slot values have been set in the inheritance procedure.
+        \"\"\"
+        if self.default is None and self.allow_None is False:
+            self.allow_None = True
+"""))
+V("C12", "restorer_drops_entries_equal_to_class_default", "fire", "R12.x", (Z, """            self._parameters._update(dict(self._restore, **self._refs))
+        finally:""", """            self._parameters._update(dict(self._restore, **self._refs))
+            inst = self._parameters.self
+            if inst is not None:
+                for name in self._restore:
+                    if inst._param__private.values.get(name, self) is self._parameters.cls.param[name].default:
+                        del inst._param__private.values[name]
+        finally:"""))
+V("C12", "on_init_methods_run_uninitialized", "fire", "R12.y", (Z, """        for m in init_methods:
+            m()
+
+    def _resolve_dynamic_deps""", """        self_._call_init_methods(init_methods)
+
+    @as_uninitialized
+    def _call_init_methods(self_, methods):
+        for m in methods:
+            m()
+
+    def _resolve_dynamic_deps"""))
+V("C14", "slot_store_rolled_back_when_watcher_raises", "fire", "R14.s", (Z, "        if has_watcher and old is not NotImplemented:\n            self._trigger_event(attribute, old, value)", "        if has_watcher and old is not NotImplemented:\n            try:\n                self._trigger_event(attribute, old, value)\n            except Exception:\n                super().__setattr__(attribute, old)\n                raise"))
+V("C15", "default_subset_leaves_out_constants", "fire", "R15.n", (Z, "        serializer = Parameter._serializers[mode]\n        return serializer.serialize_parameters(self_or_cls, subset=subset)", "        serializer = Parameter._serializers[mode]\n        if subset is None:\n            subset = [n for n, p in self_.objects('existing').items() if n == 'name' or not p.constant]\n        return serializer.serialize_parameters(self_or_cls, subset=subset)"))
+V("C17", "slotted_record_without_getstate", "fire", "R17.s", (Z, "class _ParametersRestorer:\n", "class _RefLink:\n    __slots__ = ('names', 'watcher')\n\n    def __init__(self, names, watcher):\n        self.names = names\n        self.watcher = watcher\n\n\nclass _ParametersRestorer:\n"))
+V("C18", "falsy_labels_replaced_by_derived_names", "fire", "R18.n", ("param/_utils.py", """        if objtoname and _hashable(obj) in objtoname:
+            k = objtoname[_hashable(obj)]
+        elif any(obj is v for (_, v) in unhashables):""", """        if objtoname and objtoname.get(_hashable(obj)):
+            k = objtoname[_hashable(obj)]
+        elif any(obj is v for (_, v) in unhashables):"""))
+V("C18", "listproxy_dictionary_style_membership", "fire", "R18.w", (P, "    def __eq__(self, other):\n        eq = super().__eq__(other)", "    def __contains__(self, item):\n        return item in self._parameter.names or super().__contains__(item)\n\n    def __eq__(self, other):\n        eq = super().__eq__(other)"))
+V("C19", "time_context_stack_shared_by_all_clocks", "fire", "R19.s", (P, "    forever = Infinity()\n", "    forever = Infinity()\n    _pushed_state = []\n"), (P, "        self._exhausted = None\n        self._pushed_state = []\n", "        self._exhausted = None\n"))
+V("C20", "keyword_suppressed_against_parameter_default", "fire", "R20.c", (Z, "            if (k in kwargs) and (k in values) and kwargs[k] == values[k]: continue", "            if (k in kwargs) and (k in values) and (k not in changed_params): continue"))
+V("C20", "guard_thread_identity_captured_once", "fire", "R20.d", ("param/_utils.py", "        repr_running = set()\n\n        def wrapper(self, *args, **kwargs):\n            key = id(self), get_ident()", "        repr_running = set()\n        ident = get_ident()\n\n        def wrapper(self, *args, **kwargs):\n            key = id(self), ident"))
+V("C20", "benign_guard_key_built_in_two_steps", "benign", None, ("param/_utils.py", "            key = id(self), get_ident()", "            thread = get_ident()\n            key = (id(self), thread)"))
